@@ -136,6 +136,19 @@ func isPtr(t reflect.Type) bool {
 	return t.Kind() == reflect.Ptr
 }
 
+/*
+isNilPointer returns a Boolean value indicative of whether x
+is a non-nil interface that holds a nil pointer of some type.
+*/
+func isNilPointer(x any) bool {
+	if x == nil {
+		return false
+	}
+
+	v := valOf(x)
+	return v.Kind() == reflect.Ptr && v.IsNil()
+}
+
 func derefPtr(t reflect.Type, v reflect.Value) (reflect.Type, reflect.Value, reflect.Kind) {
 	// loop to handle **type instances
 	var k reflect.Kind
